@@ -36,7 +36,7 @@ from vf import core
 from vf.gen import species as S
 
 ID = 'C11'
-N = {'quick': 4500, 'thorough': 100000}
+N = {'quick': 4000, 'thorough': 100000}
 NT_RULE = ('one object tree per case: class drawn uniformly from the 33 classes of the quantifier, '
            'attributes and nested objects drawn from a PRNG seeded per case index (after directed '
            'witnesses of every pre-finding); 1-3 encode/decode cycles and 2-3 evaluation conditions; '
